@@ -389,7 +389,8 @@ SUITES = [RescueSuite(), CutoffSuite()]
 
 
 def suite_by_name(name):
-    return next(s for s in SUITES if s.name == name)
+    from .pipeline_common import PipelineSuite
+    return next(s for s in SUITES + [PipelineSuite()] if s.name == name)
 
 
 def run(r: core.Runner):
@@ -429,3 +430,7 @@ def run(r: core.Runner):
         s.impl = real_impl
     r.traces = mon["n"]
     r.run_suite(SUITES[1])
+    # the rescue pass inside the whole inference function (cutoff taken from the first pass at the caller's threshold), rescue methods only
+    from .pipeline_common import PipelineSuite
+    r.run_suite(PipelineSuite(methods=["picked_protein_group", "classic_rescued_subset_grouping", "picked_protein_group_mq_input",
+                                       "classic_protein_group"]))
